@@ -71,14 +71,19 @@ Definition check_c (k : c_case) : bool :=
 
 (* ---- complex spaces of any nesting: inner product on (re, im) element trees ---- *)
 Record ct_case := { t_q : quirks; t_s : @space Q; t_xr : @elem Q; t_xi : @elem Q; t_yr : @elem Q; t_yi : @elem Q;
-                    t_out : impl_out; t_out_im : Q }.
+                    t_op : opk; t_out : impl_out; t_out_im : Q }.
 Definition check_ct (k : ct_case) : bool :=
-  match csp_inner (t_q k) (t_s k) (t_xr k) (t_xi k) (t_yr k) (t_yi k), t_out k with
-  | Ok (re, im), IVal v => Qclose atol rtol v re && Qclose atol rtol (t_out_im k) im
-  | NotImpl, INotImpl => true
-  | ValueErr, IValueErr => true
-  | IndexErr, IIndexErr => true
-  | _, _ => false
+  match t_op k with
+  | OInner =>
+      match csp_inner (t_q k) (t_s k) (t_xr k) (t_xi k) (t_yr k) (t_yi k), t_out k with
+      | Ok (re, im), IVal v => Qclose atol rtol v re && Qclose atol rtol (t_out_im k) im
+      | NotImpl, INotImpl => true
+      | ValueErr, IValueErr => true
+      | IndexErr, IIndexErr => true
+      | _, _ => false
+      end
+  | ONorm => agree (csp_norm (t_q k) (t_s k) (t_xr k) (t_xi k)) (t_out k)
+  | ODist => agree (csp_dist (t_q k) (t_s k) (t_xr k) (t_xi k) (t_yr k) (t_yi k)) (t_out k)
   end.
 
 (* ---- partitions: grid ends, stride/cell side, boundary fractions, cell volume ---- *)
